@@ -53,6 +53,7 @@ def coq_pieces(ps) -> str:
 
 class FStr:
     """Classify the pieces of an f-string / string constant given the meaning of the names in scope."""
+    module_funcs: dict = {}     # module-level `def f(x): return <text expression over x>` of keyvalues.py: inlined at calls
 
     def __init__(self, self_name: str, varmap: dict[str, str]) -> None:
         self.self_name = self_name
@@ -81,11 +82,75 @@ class FStr:
         if isinstance(e, ast.Call) and isinstance(e.func, ast.Name) and e.func.id == 'escape_text' \
                 and len(e.args) == 1 and not e.keywords and self.field(e.args[0]) is not None:
             return [('Esc', self.field(e.args[0]))]
+        # a text-building helper of the same module applied to a field or a known variable: its body, with the parameter
+        # replaced by the argument (`def _quoted(s): return f'"{escape_text(s)}"'`)
+        if isinstance(e, ast.Call) and isinstance(e.func, ast.Name) and e.func.id in self.module_funcs \
+                and len(e.args) == 1 and not e.keywords and getattr(self, '_depth', 0) < 4 \
+                and (self.field(e.args[0]) is not None or (isinstance(e.args[0], ast.Name) and self.simple(e.args[0]) is not None)):
+            import copy
+            hf = self.module_funcs[e.func.id]
+            hb = _strip_doc(hf.body)
+            a = hf.args
+            if len(a.args) == 1 and not (a.posonlyargs or a.kwonlyargs or a.vararg or a.kwarg) and len(hb) == 1 \
+                    and isinstance(hb[0], ast.Return) and hb[0].value is not None:
+                par = a.args[0].arg
+
+                class Sub(ast.NodeTransformer):
+                    def visit_Name(self, n):
+                        return copy.deepcopy(e.args[0]) if n.id == par else n
+                body_ = Sub().visit(copy.deepcopy(hb[0].value))
+                self._depth = getattr(self, '_depth', 0) + 1
+                try:
+                    return self.pieces(ast.fix_missing_locations(body_))
+                except TranslateError:
+                    return None
+                finally:
+                    self._depth -= 1
         return None
 
     def pieces(self, node: ast.AST) -> list:
         if isinstance(node, ast.Constant) and isinstance(node.value, str):
             return [('Lit', node.value)] if node.value else []
+        if isinstance(node, ast.BinOp) and isinstance(node.op, ast.Add):
+            return self._merge(self.pieces(node.left) + self.pieces(node.right))
+        # 'lit{}lit{}'.format(a, b)  and  'lit%slit%s' % (a, b): the same text as the f-string with a, b in the holes
+        # (only plain positional holes `{}` / `%s`; anything else is a piece the model does not know: POther)
+        parts = args = None         # parts: [(literal, has_hole)]
+        if isinstance(node, ast.Call) and isinstance(node.func, ast.Attribute) and node.func.attr == 'format' \
+                and isinstance(node.func.value, ast.Constant) and isinstance(node.func.value.value, str) and not node.keywords \
+                and not any(isinstance(a, ast.Starred) for a in node.args):
+            import string
+            args, parts = list(node.args), []
+            try:
+                for lit, field, spec, conv in string.Formatter().parse(node.func.value.value):     # resolves {{ and }}
+                    if field is None:
+                        parts.append((lit, False))
+                    elif field == '' and not spec and conv is None:
+                        parts.append((lit, True))
+                    else:
+                        return [('Other', 'format() template with named / indexed / converted fields')]
+            except ValueError:
+                return [('Other', 'malformed format() template')]
+        elif isinstance(node, ast.BinOp) and isinstance(node.op, ast.Mod) and isinstance(node.left, ast.Constant) \
+                and isinstance(node.left.value, str):
+            args = list(node.right.elts) if isinstance(node.right, ast.Tuple) else [node.right]
+            segs = node.left.value.replace('%%', '\0').split('%s')
+            if any('%' in x for x in segs):
+                return [('Other', '%-template with conversions other than %s')]
+            parts = [(x.replace('\0', '%'), i < len(segs) - 1) for i, x in enumerate(segs)]
+        if parts is not None:
+            if sum(1 for _, h in parts if h) != len(args):
+                return [('Other', 'template / argument count mismatch')]
+            out_: list = []
+            k = 0
+            for lit, hole in parts:
+                if lit:
+                    out_.append(('Lit', lit))
+                if hole:
+                    sp = self.simple(args[k])
+                    out_ += sp if sp is not None else [('Other', ast.dump(args[k])[:60])]
+                    k += 1
+            return self._merge(out_)
         if not isinstance(node, ast.JoinedStr):
             sp = self.simple(node)
             if sp is None:
@@ -104,6 +169,10 @@ class FStr:
                 continue
             sp = self.simple(v.value)
             out += sp if sp is not None else [('Other', ast.dump(v.value)[:60])]
+        return self._merge(out)
+
+    @staticmethod
+    def _merge(out: list) -> list:
         # merge adjacent literals
         merged: list = []
         for p in out:
@@ -118,6 +187,19 @@ def _root_name(node: ast.AST):
     while isinstance(node, (ast.Attribute, ast.Subscript, ast.Call)):
         node = node.func if isinstance(node, ast.Call) else node.value
     return node.id if isinstance(node, ast.Name) else None
+
+
+def _pure_helper(name: str) -> bool:
+    """A module-level `def f(x): return <expr>` whose expression calls nothing but the pure functions: it cannot store
+    to or mutate what it is given."""
+    hf = FStr.module_funcs.get(name)
+    if hf is None:
+        return False
+    hb = _strip_doc(hf.body)
+    if len(hb) != 1 or not isinstance(hb[0], ast.Return) or hb[0].value is None:
+        return False
+    return all(isinstance(c.func, ast.Name) and c.func.id in PURE_FUNCS
+               for c in ast.walk(hb[0].value) if isinstance(c, ast.Call))
 
 
 def census(fn: ast.FunctionDef, self_name: str) -> tuple[list, list, list]:
@@ -170,7 +252,7 @@ def census(fn: ast.FunctionDef, self_name: str) -> tuple[list, list, list]:
                         if isinstance(a, ast.Name) and a.id in tree_names:
                             raise _err(n, f'tree object passed to {ast.unparse(f)}')
             elif isinstance(f, ast.Name):
-                if f.id not in PURE_FUNCS:
+                if f.id not in PURE_FUNCS and not _pure_helper(f.id):
                     raise _err(n, f'unclassified call {f.id}()')
             else:
                 raise _err(n, 'unclassified call expression')
@@ -194,6 +276,57 @@ def _strip_doc(body: list) -> list:
             and isinstance(body[0].value.value, str):
         return body[1:]
     return body
+
+
+
+def _is_bare_return(s: ast.AST) -> bool:
+    return isinstance(s, ast.Return) and (s.value is None or (isinstance(s.value, ast.Constant) and s.value.value is None))
+
+
+def _ends_in_bare_return(stmts: list) -> bool:
+    return bool(stmts) and _is_bare_return(stmts[-1])
+
+
+def norm_tail(stmts: list) -> list:
+    """Semantic normalisation of a statement list in *tail position* of a function that returns None (or of a
+    generator): control flow is brought to nested if/else form before the shape matchers look at it.
+      * `if c: A; return` followed by R          ->  `if c: A else: R`       (early return = else branch)
+      * `if c: A else: B; return` followed by R  ->  `if c: A; R else: B`
+      * `if not f(...): A else: B`               ->  `if f(...): B else: A`;  `if x is not y: A else: B` -> `if x is y: B else: A`
+      * a trailing bare `return` / `return None` is dropped; `pass` is dropped
+    applied recursively to the branches (which are then in tail position themselves).  Statements that are not in
+    tail position are left alone (a `return` inside a loop stays and is rejected later, fail closed)."""
+    stmts = [s for s in stmts if not isinstance(s, ast.Pass)]
+    for i, s in enumerate(stmts):
+        if not isinstance(s, ast.If):
+            continue
+        rest = stmts[i + 1:]
+        body, orelse = list(s.body), list(s.orelse)
+        if rest:
+            if _ends_in_bare_return(body) and not _ends_in_bare_return(orelse):
+                orelse = orelse + rest
+            elif _ends_in_bare_return(orelse) and not _ends_in_bare_return(body):
+                body = body + rest
+            elif _ends_in_bare_return(orelse) and _ends_in_bare_return(body):
+                pass        # rest is unreachable
+            else:
+                continue    # an ordinary if followed by more statements: not in tail position
+        test = s.test
+        if isinstance(test, ast.UnaryOp) and isinstance(test.op, ast.Not) and orelse \
+                and isinstance(test.operand, ast.Call):
+            # `if not isinstance(...)` / `if not self.has_children()`: swap the branches.  A negated *truth test* of a
+            # field (`not self._real_name`) is left alone: it is not the negation of an identity test, and the
+            # classification of the root test must see it as written.
+            test, body, orelse = test.operand, orelse, body
+        elif isinstance(test, ast.Compare) and len(test.ops) == 1 and isinstance(test.ops[0], ast.IsNot) and orelse:
+            test = ast.copy_location(ast.Compare(left=test.left, ops=[ast.Is()], comparators=test.comparators), test)
+            body, orelse = orelse, body
+        new = ast.If(test=test, body=norm_tail(body) or [ast.Pass()], orelse=norm_tail(orelse))
+        ast.copy_location(new, s)
+        return stmts[:i] + [new]
+    if _ends_in_bare_return(stmts):
+        return norm_tail(stmts[:-1])
+    return stmts
 
 
 def tr_serialise(fn: ast.FunctionDef, inner: ast.FunctionDef):
@@ -221,20 +354,60 @@ def tr_serialise(fn: ast.FunctionDef, inner: ast.FunctionDef):
     if _file != file_param:
         raise _err(call, 'the file parameter is not what _serialise writes to')
     bufs = [n for n in ast.walk(fn) if isinstance(n, ast.Assign) and isinstance(n.value, ast.Call)
-            and isinstance(n.value.func, ast.Attribute) and n.value.func.attr == 'StringIO' and not n.value.args]
-    if len(bufs) != 1 or len(bufs[0].targets) != 2 or not all(isinstance(t, ast.Name) for t in bufs[0].targets) \
-            or file_param not in [t.id for t in bufs[0].targets]:
-        raise _err(fn, '`file = buffer = io.StringIO()` not recognised')
-    buf_name = next(t.id for t in bufs[0].targets if t.id != file_param)
+            and isinstance(n.value.func, ast.Attribute) and n.value.func.attr == 'StringIO' and not n.value.args
+            and not n.value.keywords]
+    if len(bufs) != 1 or not 1 <= len(bufs[0].targets) <= 2 or not all(isinstance(t, ast.Name) for t in bufs[0].targets):
+        raise _err(fn, 'creation of the io.StringIO() buffer not recognised')
     guard = [n for n in ast.walk(fn) if isinstance(n, ast.If) and bufs[0] in n.body]
     if len(guard) != 1 or ast.dump(guard[0].test) != ast.dump(ast.parse(f'{file_param} is None', mode='eval').body):
         raise _err(fn, 'the StringIO buffer is not created exactly when file is None')
+    tnames = [t.id for t in bufs[0].targets]
+    if file_param in tnames and len(tnames) == 2:
+        buf_name = next(t for t in tnames if t != file_param)           # file = buffer = io.StringIO()
+    elif file_param not in tnames and len(tnames) == 1:
+        buf_name = tnames[0]                                            # buffer = io.StringIO(); file = buffer
+        after = guard[0].body[guard[0].body.index(bufs[0]) + 1:]
+        if not any(isinstance(x, ast.Assign) and len(x.targets) == 1 and _is_name(x.targets[0], file_param)
+                   and _is_name(x.value, buf_name) for x in after):
+            raise _err(fn, 'the StringIO buffer is not what file is set to')
+    else:
+        raise _err(fn, 'creation of the io.StringIO() buffer not recognised')
+    for n in ast.walk(fn):
+        if isinstance(n, ast.Assign) and n is not bufs[0] and any(_is_name(t, buf_name) for t in n.targets) \
+                and not (isinstance(n.value, ast.Constant) and n.value.value is None) and n.lineno > bufs[0].lineno:
+            raise _err(n, 'the buffer variable is rebound')
     rets = [n for n in ast.walk(fn) if isinstance(n, ast.Return) and n.value is not None
             and not (isinstance(n.value, ast.Constant) and n.value.value is None)]
-    if len(rets) != 1 or ast.dump(rets[0].value) != ast.dump(ast.parse(f'{buf_name}.getvalue()', mode='eval').body):
+    getval = ast.dump(ast.parse(f'{buf_name}.getvalue()', mode='eval').body)
+
+    def returns_text(v) -> bool:
+        if ast.dump(v) == getval:
+            return True
+        if isinstance(v, ast.IfExp):      # buffer.getvalue() if buffer is not None else None   (or the other way round)
+            none = lambda x: isinstance(x, ast.Constant) and x.value is None          # noqa: E731
+            t_ = ast.dump(v.test)
+            if t_ == ast.dump(ast.parse(f'{buf_name} is not None', mode='eval').body):
+                return ast.dump(v.body) == getval and none(v.orelse)
+            if t_ == ast.dump(ast.parse(f'{buf_name} is None', mode='eval').body):
+                return ast.dump(v.orelse) == getval and none(v.body)
+        return False
+    if len(rets) != 1 or not returns_text(rets[0].value):
         raise _err(fn, 'serialise() does not return buffer.getvalue()')
     if rets[0].lineno < call.lineno:
         raise _err(fn, 'serialise() returns before writing')
+    # `x = A if c else B` (also on tuples) is `if c: x = A else: x = B`
+    for holder in ast.walk(fn):
+        for fld in ('body', 'orelse'):
+            stmts = getattr(holder, fld, None)
+            if not isinstance(stmts, list):
+                continue
+            for i, st_ in enumerate(stmts):
+                if isinstance(st_, ast.Assign) and isinstance(st_.value, ast.IfExp):
+                    ie = st_.value
+                    new = ast.If(test=ie.test,
+                                 body=[ast.copy_location(ast.Assign(targets=st_.targets, value=ie.body), st_)],
+                                 orelse=[ast.copy_location(ast.Assign(targets=st_.targets, value=ie.orelse), st_)])
+                    stmts[i] = ast.copy_location(new, st_)
     # no rebinding of the option names
     brace_if = None
     for n in ast.walk(fn):
@@ -301,17 +474,27 @@ def tr_inner(fn: ast.FunctionDef):
             return None
         c = s.body[0].value
         if not (isinstance(c, ast.Call) and isinstance(c.func, ast.Attribute) and c.func.attr == fn.name
-                and _is_name(c.func.value, s.target.id) and len(c.args) == 5 and not c.keywords):
-            raise _err(s, 'child loop does not call child._serialise with 5 positional arguments')
-        if [getattr(x, 'id', None) for x in c.args[:4]] != [file_name, ind, ob, cb]:
+                and _is_name(c.func.value, s.target.id)):
+            raise _err(s, 'child loop does not call child._serialise')
+        cargs = list(c.args)
+        if any(isinstance(x, ast.Starred) for x in cargs) or any(k.arg is None for k in c.keywords):
+            raise _err(s, 'child loop passes */** arguments')
+        kw = {k.arg: k.value for k in c.keywords}
+        for pname in params[1 + len(cargs):]:       # keyword arguments, resolved against the parameter list
+            if pname not in kw:
+                raise _err(s, f'child loop does not pass {pname}')
+            cargs.append(kw.pop(pname))
+        if kw or len(cargs) != 5:
+            raise _err(s, 'child loop does not call child._serialise with its 5 arguments')
+        if [getattr(x, 'id', None) for x in cargs[:4]] != [file_name, ind, ob, cb]:
             raise _err(s, 'file/indent/open_brace/close_brace are not passed through unchanged to the children')
-        return fs.pieces(c.args[4])
+        return fs.pieces(cargs[4])
 
     def seq(stmts, allow_loop):
         """-> (pieces before loop, child indent pieces or None, pieces after loop)"""
         pre, post, loop = [], [], None
         for s in stmts:
-            if isinstance(s, ast.Assert):
+            if isinstance(s, (ast.Assert, ast.Pass)):
                 continue
             if isinstance(s, ast.Expr) and isinstance(s.value, ast.Constant):
                 continue
@@ -332,7 +515,7 @@ def tr_inner(fn: ast.FunctionDef):
             raise _err(s, f'unrecognised statement in _serialise: {type(s).__name__}')
         return pre, loop, post
 
-    body = [s for s in _strip_doc(fn.body) if not (isinstance(s, ast.AnnAssign) and s.value is None)]
+    body = norm_tail([s for s in _strip_doc(fn.body) if not (isinstance(s, ast.AnnAssign) and s.value is None)])
     if len(body) != 1 or not isinstance(body[0], ast.If):
         raise _err(fn, '_serialise body is not a single if/else')
     top = body[0]
@@ -340,7 +523,7 @@ def tr_inner(fn: ast.FunctionDef):
     if not (isinstance(t, ast.Call) and _is_name(t.func, 'isinstance') and len(t.args) == 2
             and is_self_attr(t.args[0], '_value') and _is_name(t.args[1], 'list')):
         raise _err(top, 'top test is not isinstance(self._value, list)')
-    blk = [s for s in top.body if not isinstance(s, ast.Assert)]
+    blk = [s for s in top.body if not isinstance(s, (ast.Assert, ast.Pass))]
     if len(blk) != 1 or not isinstance(blk[0], ast.If):
         raise _err(top, 'block branch is not a single if/else on the root test')
     root_test = classify_root_test(blk[0].test, self_name)
@@ -372,10 +555,38 @@ def tr_export_struct(fn: ast.FunctionDef) -> dict:
         return isinstance(c, ast.Call) and isinstance(c.func, ast.Attribute) and c.func.attr == fn.name \
             and _is_name(c.func.value, var) and not c.args and not c.keywords
 
+    def child_prefix(e, line_var, at):
+        """CONSTANT + line  /  f'CONSTANT{line}'  -> the constant as pieces"""
+        if isinstance(e, ast.BinOp) and isinstance(e.op, ast.Add) and _is_name(e.right, line_var) \
+                and isinstance(e.left, ast.Constant) and isinstance(e.left.value, str):
+            c = e.left.value
+        elif isinstance(e, ast.JoinedStr) and len(e.values) == 2 and isinstance(e.values[0], ast.Constant) \
+                and isinstance(e.values[0].value, str) and isinstance(e.values[1], ast.FormattedValue) \
+                and _is_name(e.values[1].value, line_var) and e.values[1].conversion == -1 and e.values[1].format_spec is None:
+            c = e.values[0].value
+        elif _is_name(e, line_var):
+            c = ''
+        else:
+            raise _err(at, 'child lines are not CONSTANT + line')
+        return [('Lit', c)] if c else []
+
     def yields(stmts, allow_children):
         pre, post, prefix = [], [], None
         for st in stmts:
             if isinstance(st, ast.Assert):
+                continue
+            if isinstance(st, ast.For) and allow_children:
+                # for kv in self._value: for line in kv.export(): yield PREFIX + line     (= the generator expression)
+                if prefix is not None:
+                    raise _err(st, 'two child generators in export()')
+                inner_ = st.body[0] if len(st.body) == 1 else None
+                if not (isinstance(st.target, ast.Name) and is_self_attr(st.iter, '_value') and not st.orelse
+                        and isinstance(inner_, ast.For) and isinstance(inner_.target, ast.Name) and not inner_.orelse
+                        and is_export_call(inner_.iter, st.target.id) and len(inner_.body) == 1
+                        and isinstance(inner_.body[0], ast.Expr) and isinstance(inner_.body[0].value, ast.Yield)
+                        and inner_.body[0].value.value is not None):
+                    raise _err(st, 'children are not yielded as `for kv in self._value: for line in kv.export(): yield PREFIX + line`')
+                prefix = child_prefix(inner_.body[0].value.value, inner_.target.id, st)
                 continue
             if not isinstance(st, ast.Expr):
                 raise _err(st, f'unrecognised statement in export(): {type(st).__name__}')
@@ -396,16 +607,12 @@ def tr_export_struct(fn: ast.FunctionDef) -> dict:
                 if not (isinstance(g1.target, ast.Name) and is_self_attr(g1.iter, '_value')
                         and isinstance(g2.target, ast.Name) and is_export_call(g2.iter, g1.target.id)):
                     raise _err(st, 'child generator does not iterate kv.export() for kv in self._value')
-                e = g.elt
-                if not (isinstance(e, ast.BinOp) and isinstance(e.op, ast.Add) and _is_name(e.right, g2.target.id)
-                        and isinstance(e.left, ast.Constant) and isinstance(e.left.value, str)):
-                    raise _err(st, 'child lines are not CONSTANT + line')
-                prefix = [('Lit', e.left.value)] if e.left.value else []
+                prefix = child_prefix(g.elt, g2.target.id, st)
                 continue
             raise _err(st, 'unrecognised expression statement in export()')
         return pre, prefix, post
 
-    body = _strip_doc(fn.body)
+    body = norm_tail(_strip_doc(fn.body))
     if len(body) != 1 or not isinstance(body[0], ast.If):
         raise _err(fn, 'export() body is not a single if/else')
     top = body[0]
@@ -413,7 +620,7 @@ def tr_export_struct(fn: ast.FunctionDef) -> dict:
     if not (isinstance(t, ast.Call) and _is_name(t.func, 'isinstance') and len(t.args) == 2
             and is_self_attr(t.args[0], '_value') and _is_name(t.args[1], 'list')):
         raise _err(top, 'export(): top test is not isinstance(self._value, list)')
-    blk = [x for x in top.body if not isinstance(x, ast.Assert)]
+    blk = [x for x in top.body if not isinstance(x, (ast.Assert, ast.Pass))]
     if len(blk) != 1 or not isinstance(blk[0], ast.If):
         raise _err(top, 'export(): block branch is not a single if/else on the root test')
     root_test = classify_root_test(blk[0].test, self_name)
@@ -450,18 +657,24 @@ def tr_export(fn: ast.FunctionDef):
     self_name = fn.args.args[0].arg
     fs = FStr(self_name, {})
     ys = []
+    # `yield PREFIX + line` inside `for line in kv.export()`: a child's line handed on, described by export_struct
+    handed_on = set()
     for n in ast.walk(fn):
-        if isinstance(n, ast.Yield) and n.value is not None:
-            if isinstance(n.value, (ast.JoinedStr, ast.Constant)):
-                ys.append((n.lineno, fs.pieces(n.value)))
-            else:
-                raise _err(n, 'export() yields something that is not a string literal/f-string')
+        if isinstance(n, ast.For) and isinstance(n.target, ast.Name) and isinstance(n.iter, ast.Call) \
+                and isinstance(n.iter.func, ast.Attribute) and n.iter.func.attr == fn.name and len(n.body) == 1 \
+                and isinstance(n.body[0], ast.Expr) and isinstance(n.body[0].value, ast.Yield):
+            handed_on.add(id(n.body[0].value))
+    for n in ast.walk(fn):
+        if isinstance(n, ast.Yield) and n.value is not None and id(n) not in handed_on:
+            ys.append((n.lineno, fs.pieces(n.value)))      # fails closed on text it cannot classify
     ys.sort(key=lambda t: t[0])
     return ys, self_name
 
 
-def tr_parse(fn: ast.FunctionDef) -> dict:
-    """Decisive sites of Keyvalues.parse:
+def tr_parse(fn: ast.FunctionDef, tree: ast.Module | None = None, cls: ast.ClassDef | None = None) -> dict:
+    """(The names of the loop's variables are the roles found by translate/c01_kvloop.py in the prologue of parse:
+    a renamed local changes nothing.)
+    Decisive sites of Keyvalues.parse:
       * the options handed to Tokenizer(...) (the lexer model hard-codes string_bracket=True and takes
         allow_escapes from the caller; anything else fails closed);
       * the tests guarding the two 'Illegal newline' errors: `not newline_keys and (<test>)`, `not newline_values
@@ -469,6 +682,9 @@ def tr_parse(fn: ast.FunctionDef) -> dict:
       * the two flag-replacement tests `can_flag_replace and ... cur_block_contents[-1] ...`: whether the list is
         tested for emptiness before it is indexed."""
     out: dict = {}
+    from translate.c01_kvloop import LoopTr, module_helpers
+    roles = LoopTr(fn, module_helpers(tree, cls) if tree is not None and cls is not None else None)
+    v_cfr, v_cont, v_tok, v_cur = roles.cfrv, roles.contv, roles.tokenizer, roles.curv
     # --- Tokenizer(...) construction
     calls = [n for n in ast.walk(fn) if isinstance(n, ast.Call) and _is_name(n.func, 'Tokenizer')]
     if len(calls) != 1:
@@ -480,105 +696,95 @@ def tr_parse(fn: ast.FunctionDef) -> dict:
         kws[k.arg] = k.value
     if len(calls[0].args) != 3:
         raise _err(calls[0], 'Tokenizer(file_contents, filename, KeyValError, ...) expected')
-    if set(kws) != {'string_bracket', 'allow_escapes'}:
-        raise _err(calls[0], f'Tokenizer options in parse are {sorted(kws)}, the lexer model assumes '
-                             'string_bracket=True, allow_escapes=allow_escapes and defaults otherwise')
-    sb = kws['string_bracket']
-    if not (isinstance(sb, ast.Constant) and sb.value is True):
-        raise _err(calls[0], 'string_bracket is not True')
-    if not _is_name(kws['allow_escapes'], 'allow_escapes'):
+    # the options in effect = the keyword-only defaults of Tokenizer.__init__ overridden by the keywords of the call
+    # (an option spelled out with its default value is the same call); the lexer model KV/KvLex.v hard-codes them
+    ttree = ast.parse(src_text('tokenizer.py'))
+    tcls = next((n for n in ttree.body if isinstance(n, ast.ClassDef) and n.name == 'Tokenizer'), None)
+    tinit = next((n for n in (tcls.body if tcls else []) if isinstance(n, ast.FunctionDef) and n.name == '__init__'), None)
+    if tinit is None:
+        raise TranslateError('tokenizer.py: Tokenizer.__init__ not found')
+    order = ['string_bracket', 'string_parens', 'allow_star_comments', 'preserve_comments', 'colon_operator', 'plus_operator']
+    eff: dict = {}
+    for a_, d_ in zip(tinit.args.kwonlyargs, tinit.args.kw_defaults):
+        if not (isinstance(d_, ast.Constant) and isinstance(d_.value, bool)):
+            raise _err(tinit, f'Tokenizer option {a_.arg} has no constant bool default')
+        eff[a_.arg] = d_.value
+    if set(eff) != set(order) | {'allow_escapes'} or tinit.args.kwarg is not None:
+        raise _err(tinit, f'Tokenizer options are {sorted(eff)}: not the ones the lexer model knows')
+    for k, v in kws.items():
+        if k not in eff:
+            raise _err(calls[0], f'unknown Tokenizer option {k} in parse')
+        if k == 'allow_escapes':
+            continue
+        if not (isinstance(v, ast.Constant) and isinstance(v.value, bool)):
+            raise _err(calls[0], f'Tokenizer option {k} is not a constant in parse')
+        eff[k] = v.value
+    if not _is_name(kws.get('allow_escapes'), 'allow_escapes'):
         raise _err(calls[0], 'allow_escapes is not passed through')
+    out['tokenizer_options'] = [eff[k] for k in order]
 
-    # --- newline tests
-    def brk(opt: str):
-        ifs = [n for n in ast.walk(fn) if isinstance(n, ast.If)
-               and any(_is_name(x, opt) for x in ast.walk(n.test))]
-        if len(ifs) != 1:
-            raise _err(fn, f'expected exactly one test of {opt} in parse, found {len(ifs)}')
-        node = ifs[0]
-        if not (len(node.body) == 1 and isinstance(node.body[0], ast.Raise) and not node.orelse):
-            raise _err(node, f'the test of {opt} does not guard a single raise')
-        t = node.test
-        if not (isinstance(t, ast.BoolOp) and isinstance(t.op, ast.And) and len(t.values) == 2
-                and isinstance(t.values[0], ast.UnaryOp) and isinstance(t.values[0].op, ast.Not)
-                and _is_name(t.values[0].operand, opt)):
-            raise _err(node, f'test is not `not {opt} and (...)`')
-        inner = t.values[1]
-        parts = inner.values if isinstance(inner, ast.BoolOp) and isinstance(inner.op, ast.Or) else [inner]
-        chars, names = [], set()
+    # --- newline tests: every test in the loop body that looks at nothing but the text of the key token (token 0) /
+    # of the value token (token 1) is the atom `ABrk 0` / `ABrk 1` of the regenerated decision tree (which option guards
+    # it, and what happens when it holds, is in the tree); here its character set is read: `'c' in v or 'd' in v ...`
+    # -> BTChars, anything else -> BTOther.  No such test at all: the empty set (the model then never reports it).
+    roles.body_tree()
+
+    def charset(e, depth=0):
+        # a predicate of the same module applied to the token text: `def f(s): return <expr over s>` is inlined
+        if isinstance(e, ast.Call) and isinstance(e.func, ast.Name) and depth < 4 \
+                and tree is not None and len(e.args) == 1 and not e.keywords and isinstance(e.args[0], ast.Name):
+            hf = next((n for n in tree.body if isinstance(n, ast.FunctionDef) and n.name == e.func.id), None)
+            hb = _strip_doc(hf.body) if hf is not None else []
+            if hf is not None and len(hf.args.args) == 1 and not hf.args.kwonlyargs and not hf.args.vararg \
+                    and not hf.args.kwarg and len(hb) == 1 and isinstance(hb[0], ast.Return) and hb[0].value is not None:
+                import copy
+                par, arg = hf.args.args[0].arg, e.args[0].id
+                body_ = copy.deepcopy(hb[0].value)
+                for n in ast.walk(body_):
+                    if isinstance(n, ast.Name) and n.id == par:
+                        n.id = arg
+                return charset(body_, depth + 1)
+            return None
+        parts = e.values if isinstance(e, ast.BoolOp) and isinstance(e.op, ast.Or) else [e]
+        chars = []
         for c in parts:
-            if isinstance(c, ast.Compare) and len(c.ops) == 1 and isinstance(c.ops[0], ast.In) \
+            if isinstance(c, ast.BoolOp) and isinstance(c.op, ast.Or):
+                sub = charset(c)
+                if sub is None:
+                    return None
+                chars += sub
+            elif isinstance(c, ast.Compare) and len(c.ops) == 1 and isinstance(c.ops[0], ast.In) \
                     and isinstance(c.left, ast.Constant) and isinstance(c.left.value, str) and len(c.left.value) == 1 \
-                    and isinstance(c.comparators[0], ast.Name):
-                chars.append(c.left.value)
-                names.add(c.comparators[0].id)
+                    and isinstance(c.comparators[0], ast.Name) and c.comparators[0].id in roles.locals:
+                chars.append(c.left.value)      # (the test mentions one local only: the text of that token)
             else:
-                return None, node.lineno, None
-        if len(names) != 1:
-            return None, node.lineno, None
-        return chars, node.lineno, names.pop()
-    kch, kline, kname = brk('newline_keys')
-    vch, vline, vname = brk('newline_values')
-    # the key test must look at the token value of the main loop, the value test at the value token
-    loops = [n for n in ast.walk(fn) if isinstance(n, ast.For) and _is_name(n.iter, 'tokenizer')]
-    if len(loops) != 1 or not (isinstance(loops[0].target, ast.Tuple) and len(loops[0].target.elts) == 2
-                               and all(isinstance(e, ast.Name) for e in loops[0].target.elts)):
-        raise _err(fn, 'main loop `for token_type, token_value in tokenizer` not recognised')
-    tok_val = loops[0].target.elts[1].id
-    if kname is not None and kname != tok_val:
-        raise _err(fn, f'the newline_keys test looks at {kname}, not at the key token {tok_val}')
-    if vname is not None and vname == tok_val:
-        raise _err(fn, f'the newline_values test looks at the key token {tok_val}')
+                return None
+        return chars
+
+    def brk(i: int):
+        tests = list(roles.brk_tests[i].values())
+        sets = [charset(e) for e in tests]
+        lines = [e.lineno for e in tests]
+        if not tests:
+            return [], lines
+        if any(x is None for x in sets) or any(sorted(set(x)) != sorted(set(sets[0])) for x in sets):
+            return None, lines
+        return sets[0], lines
+    kch, klines = brk(0)
+    vch, vlines = brk(1)
     out['key_break'] = kch
     out['value_break'] = vch
-    out['break_lines'] = [kline, vline]
+    out['break_lines'] = [klines, vlines]
 
-    # --- flag replacement tests
-    reps = [n for n in ast.walk(fn) if isinstance(n, ast.If) and isinstance(n.test, ast.BoolOp)
-            and isinstance(n.test.op, ast.And) and n.test.values and _is_name(n.test.values[0], 'can_flag_replace')]
-    if len(reps) != 2:
-        raise _err(fn, f'expected two `can_flag_replace and ...` tests, found {len(reps)}')
-    guards = []
-    for n in reps:
-        guarded = False
-        for v in n.test.values[1:]:
-            if _is_name(v, 'cur_block_contents'):
-                guarded = True
-                break
-            if any(isinstance(x, ast.Subscript) and _is_name(x.value, 'cur_block_contents') for x in ast.walk(v)):
-                break
-        guards.append(guarded)
-    out['replace_guards'] = guards
-    out['replace_lines'] = [n.lineno for n in reps]
-
-    # --- single_block early return `return root[0]` at a closing brace: is root tested for a child first?
-    def returns_root0(n: ast.If) -> bool:
-        return any(isinstance(x, ast.Return) and isinstance(x.value, ast.Subscript) and isinstance(x.value.value, ast.Name)
-                   and isinstance(x.value.slice, ast.Constant) and x.value.slice.value == 0 for x in n.body)
-    sbs = [n for n in ast.walk(fn) if isinstance(n, ast.If) and returns_root0(n)]
-    if len(sbs) != 1:
-        raise _err(fn, f'expected one `return root[0]` site, found {len(sbs)}')
-    t = sbs[0].test
-    ops = t.values if isinstance(t, ast.BoolOp) and isinstance(t.op, ast.And) else [t]
-    root_name = next(x.value.value.id for x in sbs[0].body if isinstance(x, ast.Return))
-    base, extra = 0, []
-    for v in ops:
-        if _is_name(v, 'single_block'):
-            base += 1
-        elif isinstance(v, ast.Compare) and len(v.ops) == 1 and isinstance(v.ops[0], ast.Is) \
-                and _is_name(v.left, 'cur_block') and _is_name(v.comparators[0], root_name):
-            base += 1
-        else:
-            extra.append(v)
-    if base != 2:
-        raise _err(sbs[0], 'single_block return is not guarded by `single_block and cur_block is root`')
-    if not extra:
-        out['single_block_guard'] = False
-    elif len(extra) == 1 and isinstance(extra[0], ast.Attribute) and extra[0].attr == '_value' \
-            and _is_name(extra[0].value, root_name):
-        out['single_block_guard'] = True
-    else:
-        raise _err(sbs[0], 'unrecognised extra condition on the single_block return')
+    # --- emptiness guards, read off the symbolic execution of the loop body (translate/c01_kvloop.py), not off the
+    # spelling of the tests: is there a path on which `cur_block_contents[-1]` is evaluated while the list may be empty
+    # (the flag-replacement tests / the replacement itself), and is root known to have a child on every path that
+    # returns `root[0]`?
+    out['replace_guards'] = [roles.n_index == 0]
+    out['unguarded_index_paths'] = roles.n_index
+    if not roles.root0_guarded:
+        raise _err(fn, 'no `return root[0]` path found in the token loop (single_block at a closing brace)')
+    out['single_block_guard'] = all(roles.root0_guarded)
     return out
 
 
@@ -595,89 +801,293 @@ return flag_inv is not flag_result
 """
 
 
-def tr_read_flag(tree: ast.Module) -> None:
-    """_read_flag(flags, flag_val) must have the shape that KV/KvFlags.v read_flag mirrors (fail closed)."""
+def _alpha(body: list, params: list) -> str:
+    """ast dump of a function body with the local names replaced by their order of first binding (a renamed local is
+    the same function)."""
+    mod = ast.Module(body=body, type_ignores=[])
+    order: dict = {p_: f'p{i}' for i, p_ in enumerate(params)}
+    for n in ast.walk(mod):
+        if isinstance(n, ast.Name) and isinstance(n.ctx, ast.Store) and n.id not in order:
+            order[n.id] = f'v{len(order)}'
+    for n in ast.walk(mod):
+        if isinstance(n, ast.Name) and n.id in order:
+            n.id = order[n.id]
+    return ast.dump(mod)
+
+
+def tr_read_flag(tree: ast.Module) -> bool:
+    """Is _read_flag(flags, flag_val) the function that KV/KvFlags.v read_flag mirrors, up to the names of its
+    locals?  Not an obligation: no theorem depends on _read_flag (its verdicts are an arbitrary predicate), and the
+    model is compared with it directly (correspondence:read_flag); an unrecognised shape only enlarges that comparison."""
     fn = next((n for n in tree.body if isinstance(n, ast.FunctionDef) and n.name == '_read_flag'), None)
     if fn is None:
         raise TranslateError('keyvalues.py: _read_flag not found')
-    if [a.arg for a in fn.args.args] != ['flags', 'flag_val'] or fn.args.kwonlyargs or fn.args.vararg or fn.args.kwarg:
+    if len(fn.args.args) != 2 or fn.args.kwonlyargs or fn.args.vararg or fn.args.kwarg or fn.args.posonlyargs:
         raise _err(fn, '_read_flag(flags, flag_val) expected')
-    got = ast.dump(ast.Module(body=_strip_doc(fn.body), type_ignores=[]))
-    ref_fn = ast.parse('def f():\n' + ''.join('    ' + ln + '\n' for ln in READ_FLAG_REF.strip().splitlines())).body[0]
-    want = ast.dump(ast.Module(body=ref_fn.body, type_ignores=[]))
-    if got != want:
-        raise _err(fn, '_read_flag has an unexpected shape (KV/KvFlags.v mirrors: strip one leading "!", casefold, '
-                       'flags[...] else FLAGS_DEFAULT.get(..., False), inverted is-not)')
+    import copy
+    got = _alpha(copy.deepcopy(_strip_doc(fn.body)), [a.arg for a in fn.args.args])
+    ref_fn = ast.parse('def f(flags, flag_val):\n' + ''.join('    ' + ln + '\n' for ln in READ_FLAG_REF.strip().splitlines())).body[0]
+    want = _alpha(ref_fn.body, ['flags', 'flag_val'])
+    return got == want
 
 
 def coq_brk(chars) -> str:
     return 'BTOther' if chars is None else f'BTChars {coq_chars("".join(chars))}'
 
 
+def regex_charset(pat) -> set:
+    """The set of code points matched by a compiled regular expression that matches exactly one character from a
+    finite set (alternation of literals, character class with literals / ranges), however it was spelled; fail closed
+    on anything else (negated classes, categories, longer matches, flags other than the default)."""
+    import re
+    try:
+        import re._parser as sp       # Python >= 3.11
+    except ImportError:               # pragma: no cover
+        import sre_parse as sp
+    if not isinstance(pat, re.Pattern) or not isinstance(pat.pattern, str):
+        raise TranslateError('tokenizer.py: escape pattern is not a compiled str pattern')
+    if pat.flags & ~re.UNICODE:
+        raise TranslateError(f'tokenizer.py: escape pattern compiled with flags {pat.flags}')
+
+    def one(item) -> set:
+        op, arg = item
+        name = str(op)
+        if name == 'LITERAL':
+            return {arg}
+        if name == 'IN':
+            out: set = set()
+            for o2, a2 in arg:
+                if str(o2) == 'LITERAL':
+                    out.add(a2)
+                elif str(o2) == 'RANGE' and a2[1] - a2[0] < 4096:
+                    out |= set(range(a2[0], a2[1] + 1))
+                else:
+                    raise TranslateError(f'tokenizer.py: escape pattern uses {o2} in a character class')
+            return out
+        if name == 'BRANCH':
+            out = set()
+            for alt in arg[1]:
+                if len(alt) != 1:
+                    raise TranslateError('tokenizer.py: escape pattern alternative is not one character')
+                out |= one(alt[0])
+            return out
+        if name == 'SUBPATTERN' and len(arg[-1]) == 1:
+            return one(arg[-1][0])
+        raise TranslateError(f'tokenizer.py: escape pattern uses {op}')
+    parsed = list(sp.parse(pat.pattern))
+    if len(parsed) != 1:
+        raise TranslateError('tokenizer.py: escape pattern does not match exactly one character')
+    return one(parsed[0])
+
+
 def tr_escapes() -> dict:
+    """escape_text(text) with multiline=False, read semantically:
+      * ESCAPES must be a literal dict of character pairs (the table of the model);
+      * the body of escape_text is evaluated with multiline=False (locals inlined, `A if multiline else B` and
+        `if multiline:` decided): it must come down to `<pattern>.sub(<matcher>, text)`, optionally after fast paths
+        `if <pattern'>.search(text) is None: return text`;
+      * the patterns are taken as the VALUES the module under test holds (it is imported from VERIF_REPO/src by this
+        run) and reduced to the set of characters they match (regex_charset), whatever expression built them;
+      * the matcher (module-level function or lambda) must return `D[m.group()]` (or `m.group(0)`, `m[0]`, with an
+        optional constant prefix); D is taken as the value the module holds, and for every character the pattern
+        matches it must give a backslash plus the symbol the ESCAPES literal has for that character (last entry wins).
+    Result: the table, the characters of the table's values that are NOT escaped (e_excl of the model), and the
+    characters that are escaped but would be missed by a fast path."""
+    import re
+    from srctools import tokenizer as tokmod
     tree = ast.parse(src_text('tokenizer.py'))
     out: dict = {}
+    funcs: dict = {}
     for n in tree.body:
+        if isinstance(n, ast.FunctionDef):
+            funcs[n.name] = n
+        tgt = None
         if isinstance(n, ast.Assign) and len(n.targets) == 1 and isinstance(n.targets[0], ast.Name):
-            nm = n.targets[0].id
-            if nm == 'ESCAPES':
-                if not isinstance(n.value, ast.Dict):
-                    raise TranslateError('tokenizer.py: ESCAPES is not a dict literal')
-                tbl = []
-                for k, v in zip(n.value.keys, n.value.values):
-                    if not (isinstance(k, ast.Constant) and isinstance(v, ast.Constant) and isinstance(k.value, str)
-                            and isinstance(v.value, str) and len(k.value) == 1 and len(v.value) == 1):
-                        raise TranslateError(f'tokenizer.py:{n.lineno}: ESCAPES entry is not char: char')
-                    tbl.append((k.value, v.value))
-                if len({k for k, _ in tbl}) != len(tbl):
-                    raise TranslateError('tokenizer.py: duplicate key in ESCAPES')
-                out['table'] = tbl
-            elif nm == 'ESCAPES_INV':
-                want = "DictComp(key=Name(id='char', ctx=Load()), value=JoinedStr(values=[Constant(value='\\\\'), " \
-                       "FormattedValue(value=Name(id='sym', ctx=Load()), conversion=-1)]), generators=[comprehension(" \
-                       "target=Tuple(elts=[Name(id='sym', ctx=Store()), Name(id='char', ctx=Store())], ctx=Store()), " \
-                       "iter=Call(func=Attribute(value=Name(id='ESCAPES', ctx=Load()), attr='items', ctx=Load()), " \
-                       "args=[], keywords=[]), ifs=[], is_async=0)])"
-                if ast.dump(n.value) != want:
-                    raise TranslateError(f'tokenizer.py:{n.lineno}: ESCAPES_INV has an unexpected shape')
-                out['inv'] = True
-            elif nm in ('ESCAPE_RE', 'ESCAPE_MULTILINE_RE'):
-                d = ast.dump(n.value)
-                pre = "Call(func=Attribute(value=Name(id='re', ctx=Load()), attr='compile', ctx=Load()), args=[Call(func=" \
-                      "Attribute(value=Constant(value='|'), attr='join', ctx=Load()), args=[GeneratorExp(elt=Call(func=" \
-                      "Attribute(value=Name(id='re', ctx=Load()), attr='escape', ctx=Load()), args=[Name(id='c', ctx=Load())], " \
-                      "keywords=[]), generators=[comprehension(target=Name(id='c', ctx=Store()), iter=Name(id='ESCAPES_INV', " \
-                      "ctx=Load()), ifs=[Compare(left=Name(id='c', ctx=Load()), ops=[NotIn()], comparators=[Constant(value="
-                if not d.startswith(pre):
-                    raise TranslateError(f'tokenizer.py:{n.lineno}: {nm} has an unexpected shape')
-                g = n.value.args[0].args[0].generators[0]
-                excl = g.ifs[0].comparators[0].value
-                if not isinstance(excl, str) or len(g.ifs) != 1:
-                    raise TranslateError(f'tokenizer.py:{n.lineno}: {nm} exclusion is not one string')
-                out['excl' if nm == 'ESCAPE_RE' else 'excl_multi'] = excl
-        elif isinstance(n, ast.FunctionDef) and n.name == 'escape_text':
-            body = _strip_doc(n.body)
-            want = "Return(value=Call(func=Attribute(value=IfExp(test=Name(id='multiline', ctx=Load()), body=Name(id=" \
-                   "'ESCAPE_MULTILINE_RE', ctx=Load()), orelse=Name(id='ESCAPE_RE', ctx=Load())), attr='sub', ctx=Load()), " \
-                   "args=[Name(id='_escape_matcher', ctx=Load()), Name(id='text', ctx=Load())], keywords=[]))"
-            args = [a.arg for a in n.args.args]
-            dflt = [ast.dump(x) for x in n.args.defaults]
-            if len(body) != 1 or ast.dump(body[0]) != want or args != ['text', 'multiline'] \
-                    or dflt != ['Constant(value=False)']:
-                raise TranslateError(f'tokenizer.py:{n.lineno}: escape_text has an unexpected shape')
-            out['escape_text'] = True
-        elif isinstance(n, ast.FunctionDef) and n.name == '_escape_matcher':
-            body = _strip_doc(n.body)
-            want = "Return(value=Subscript(value=Name(id='ESCAPES_INV', ctx=Load()), slice=Call(func=Attribute(value=" \
-                   "Name(id='match', ctx=Load()), attr='group', ctx=Load()), args=[], keywords=[]), ctx=Load()))"
-            if len(body) != 1 or ast.dump(body[0]) != want:
-                raise TranslateError(f'tokenizer.py:{n.lineno}: _escape_matcher has an unexpected shape')
-            out['matcher'] = True
-        elif isinstance(n, ast.ClassDef) and n.name == 'Tokenizer':
+            tgt, val = n.targets[0].id, n.value
+        elif isinstance(n, ast.AnnAssign) and isinstance(n.target, ast.Name) and n.value is not None:
+            tgt, val = n.target.id, n.value
+        if tgt == 'ESCAPES':
+            if not isinstance(val, ast.Dict):
+                raise TranslateError('tokenizer.py: ESCAPES is not a dict literal')
+            tbl = []
+            for k, v in zip(val.keys, val.values):
+                if not (isinstance(k, ast.Constant) and isinstance(v, ast.Constant) and isinstance(k.value, str)
+                        and isinstance(v.value, str) and len(k.value) == 1 and len(v.value) == 1):
+                    raise TranslateError(f'tokenizer.py:{n.lineno}: ESCAPES entry is not char: char')
+                tbl.append((k.value, v.value))
+            if len({k for k, _ in tbl}) != len(tbl):
+                raise TranslateError('tokenizer.py: duplicate key in ESCAPES')
+            out['table'] = tbl
+        if isinstance(n, ast.ClassDef) and n.name == 'Tokenizer':
             out['tokenizer_digest'] = ast_digest(n)
-    for need in ('table', 'inv', 'excl', 'escape_text', 'matcher', 'tokenizer_digest'):
+    for need in ('table', 'tokenizer_digest'):
         if need not in out:
             raise TranslateError(f'tokenizer.py: {need} not found')
+    fn = funcs.get('escape_text')
+    if fn is None:
+        raise TranslateError('tokenizer.py: escape_text not found')
+    a = fn.args
+    if len(a.args) != 2 or a.posonlyargs or a.kwonlyargs or a.vararg or a.kwarg or len(a.defaults) != 1 \
+            or not (isinstance(a.defaults[0], ast.Constant) and a.defaults[0].value is False):
+        raise TranslateError(f'tokenizer.py:{fn.lineno}: escape_text(text, multiline=False) expected')
+    p_text, p_multi = a.args[0].arg, a.args[1].arg
+    env: dict = {}
+
+    def static_bool(t):
+        if _is_name(t, p_multi):
+            return False
+        if isinstance(t, ast.UnaryOp) and isinstance(t.op, ast.Not):
+            v = static_bool(t.operand)
+            return None if v is None else not v
+        if isinstance(t, ast.Compare) and len(t.ops) == 1 and _is_name(t.left, p_multi) \
+                and isinstance(t.comparators[0], ast.Constant) and isinstance(t.comparators[0].value, bool) \
+                and isinstance(t.ops[0], (ast.Is, ast.Eq, ast.IsNot, ast.NotEq)):
+            return (False == t.comparators[0].value) == isinstance(t.ops[0], (ast.Is, ast.Eq))     # noqa: E712
+        return None
+
+    def pattern_of(e, depth=0):
+        if depth > 8:
+            raise _err(e, 'escape_text: pattern expression too deep')
+        if isinstance(e, ast.Name) and e.id in env:
+            return pattern_of(env[e.id], depth + 1)
+        if isinstance(e, ast.Name) and e.id not in (p_text, p_multi):
+            v = getattr(tokmod, e.id, None)
+            if isinstance(v, re.Pattern):
+                return v
+            raise _err(e, f'escape_text: {e.id} is not a compiled pattern of the module')
+        if isinstance(e, ast.IfExp):
+            b_ = static_bool(e.test)
+            if b_ is None:
+                raise _err(e, 'escape_text: conditional pattern does not depend on multiline only')
+            return pattern_of(e.body if b_ else e.orelse, depth + 1)
+        raise _err(e, 'escape_text: pattern expression not understood')
+
+    def is_text(e) -> bool:
+        return _is_name(e, p_text)
+
+    def no_match_test(t):
+        """`P.search(text) is None` / `not P.search(text)` -> P"""
+        call = None
+        if isinstance(t, ast.Compare) and len(t.ops) == 1 and isinstance(t.ops[0], ast.Is) \
+                and isinstance(t.comparators[0], ast.Constant) and t.comparators[0].value is None:
+            call = t.left
+        elif isinstance(t, ast.UnaryOp) and isinstance(t.op, ast.Not):
+            call = t.operand
+        if isinstance(call, ast.Call) and isinstance(call.func, ast.Attribute) and call.func.attr == 'search' \
+                and len(call.args) == 1 and not call.keywords and is_text(call.args[0]):
+            return pattern_of(call.func.value)
+        return None
+
+    fast: list = []
+
+    def walk(stmts):
+        for i, s_ in enumerate(stmts):
+            if isinstance(s_, ast.Expr) and isinstance(s_.value, ast.Constant):
+                continue
+            if isinstance(s_, ast.Assign) and len(s_.targets) == 1 and isinstance(s_.targets[0], ast.Name) \
+                    and s_.targets[0].id not in (p_text, p_multi):
+                env[s_.targets[0].id] = s_.value
+                continue
+            if isinstance(s_, ast.If):
+                test = s_.test
+                if isinstance(test, ast.BoolOp) and isinstance(test.op, ast.And):
+                    # operands that depend on multiline only are decided; one undecided operand may remain
+                    vals = [(static_bool(v), v) for v in test.values]
+                    if any(b0 is False for b0, _ in vals):
+                        test = ast.Constant(value=False)
+                    else:
+                        rest_ = [v for b0, v in vals if b0 is None]
+                        test = ast.Constant(value=True) if not rest_ else rest_[0] if len(rest_) == 1 else test
+                b_ = test.value if isinstance(test, ast.Constant) and isinstance(test.value, bool) else static_bool(test)
+                if b_ is not None:
+                    return walk(list(s_.body if b_ else s_.orelse) + list(stmts[i + 1:]))
+                pat = no_match_test(test)
+                if pat is not None and not s_.orelse and len(s_.body) == 1 and isinstance(s_.body[0], ast.Return) \
+                        and is_text(s_.body[0].value):
+                    fast.append(pat)
+                    continue
+                raise _err(s_, 'escape_text: test not understood')
+            if isinstance(s_, ast.Return):
+                return s_
+            raise _err(s_, f'escape_text: statement {type(s_).__name__} not understood')
+        raise _err(fn, 'escape_text: no return')
+    ret = walk(_strip_doc(fn.body))
+    c = ret.value
+    if not (isinstance(c, ast.Call) and isinstance(c.func, ast.Attribute) and c.func.attr == 'sub'):
+        raise _err(ret, 'escape_text does not return <pattern>.sub(...)')
+    kw = {k.arg: k.value for k in c.keywords}
+    if None in kw or set(kw) - {'repl', 'string'} or len(c.args) + len(kw) != 2:
+        raise _err(ret, 'escape_text: arguments of sub() not understood')
+    repl = c.args[0] if c.args else kw.get('repl')
+    string = c.args[1] if len(c.args) == 2 else kw.get('string')
+    if repl is None or string is None or not is_text(string):
+        raise _err(ret, 'escape_text: sub() is not applied to the text')
+    pat = pattern_of(c.func.value)
+    if isinstance(repl, ast.Name) and repl.id in env:
+        repl = env[repl.id]
+    # the matcher
+    if isinstance(repl, ast.Lambda):
+        margs, mval, mnode = repl.args, repl.body, repl
+    elif isinstance(repl, ast.Name) and repl.id in funcs:
+        mf = funcs[repl.id]
+        mb = _strip_doc(mf.body)
+        if len(mb) != 1 or not isinstance(mb[0], ast.Return) or mb[0].value is None:
+            raise _err(mf, 'escape matcher is not a single return')
+        margs, mval, mnode = mf.args, mb[0].value, mf
+    else:
+        raise _err(ret, 'escape_text: replacement is not a module-level function or a lambda')
+    if len(margs.args) != 1 or margs.posonlyargs or margs.kwonlyargs or margs.vararg or margs.kwarg:
+        raise _err(mnode, 'escape matcher does not take exactly one argument')
+    m_name = margs.args[0].arg
+    prefix = ''
+    if isinstance(mval, ast.BinOp) and isinstance(mval.op, ast.Add) and isinstance(mval.left, ast.Constant) \
+            and isinstance(mval.left.value, str):
+        prefix, mval = mval.left.value, mval.right
+    elif isinstance(mval, ast.JoinedStr) and len(mval.values) == 2 and isinstance(mval.values[0], ast.Constant) \
+            and isinstance(mval.values[1], ast.FormattedValue) and mval.values[1].conversion == -1 \
+            and mval.values[1].format_spec is None:
+        prefix, mval = mval.values[0].value, mval.values[1].value
+
+    def whole_match(g) -> bool:
+        if isinstance(g, ast.Call) and isinstance(g.func, ast.Attribute) and g.func.attr == 'group' \
+                and _is_name(g.func.value, m_name) and not g.keywords:
+            return not g.args or (len(g.args) == 1 and isinstance(g.args[0], ast.Constant) and g.args[0].value == 0
+                                  and type(g.args[0].value) is int)
+        return isinstance(g, ast.Subscript) and _is_name(g.value, m_name) and isinstance(g.slice, ast.Constant) \
+            and g.slice.value == 0 and type(g.slice.value) is int
+    if not (isinstance(mval, ast.Subscript) and isinstance(mval.value, ast.Name) and whole_match(mval.slice)):
+        raise _err(mnode, 'escape matcher does not return <table>[match.group()]')
+    inv_rt = getattr(tokmod, mval.value.id, None)
+    if not isinstance(inv_rt, dict):
+        raise _err(mnode, f'escape matcher: {mval.value.id} is not a dict of the module')
+    matched = regex_charset(pat)
+    inv_last = {}
+    for sym, ch in out['table']:
+        inv_last[ch] = sym
+    for cp in sorted(matched):
+        ch = chr(cp)
+        if ch not in inv_rt:
+            raise TranslateError(f'tokenizer.py: the escape pattern matches {ch!r}, for which {mval.value.id} has no entry')
+        if ch not in inv_last or prefix + inv_rt[ch] != '\\' + inv_last[ch]:
+            raise TranslateError(f'tokenizer.py: {ch!r} is written as {prefix + str(inv_rt[ch])!r}, which is not a backslash '
+                                 'and the symbol ESCAPES has for it')
+    seen: list = []
+    for _, ch in out['table']:
+        if ord(ch) not in matched and ch not in seen:
+            seen.append(ch)
+    out['excl'] = ''.join(seen)
+    miss: set = set()
+    for fp in fast:
+        miss |= matched - regex_charset(fp)
+    out['fast_paths'] = len(fast)
+    out['fast_path_missing'] = sorted(miss)
+    out['escaped'] = sorted(matched)
+    multi = getattr(tokmod, 'ESCAPE_MULTILINE_RE', None)
+    try:
+        mm = regex_charset(multi)
+        out['excl_multi'] = ''.join(ch for ch in dict.fromkeys(c_ for _, c_ in out['table']) if ord(ch) not in mm)
+    except TranslateError:
+        out['excl_multi'] = None
     return out
 
 
@@ -686,6 +1096,7 @@ def translate() -> tuple[str, dict]:
     cls = next((n for n in tree.body if isinstance(n, ast.ClassDef) and n.name == 'Keyvalues'), None)
     if cls is None:
         raise TranslateError('keyvalues.py: class Keyvalues not found')
+    FStr.module_funcs = {n.name: n for n in tree.body if isinstance(n, ast.FunctionDef)}
     f_ser = _find_method(cls, 'serialise')
     f_in = _find_method(cls, '_serialise')
     f_exp = _find_method(cls, 'export')
@@ -694,8 +1105,8 @@ def translate() -> tuple[str, dict]:
     inner, s2 = tr_inner(f_in)
     yields, s3 = tr_export(f_exp)
     xs = tr_export_struct(f_exp)
-    psites = tr_parse(f_parse)
-    tr_read_flag(tree)
+    psites = tr_parse(f_parse, tree, cls)
+    read_flag_known = tr_read_flag(tree)
     stores, muts, info = [], [], []
     for fn, sn in ((f_ser, s1), (f_in, s2), (f_exp, s3)):
         a, b, c = census(fn, sn)
@@ -708,7 +1119,12 @@ def translate() -> tuple[str, dict]:
          'Open Scope N_scope.', '',
          'Definition gen_escfg : escfg := {|',
          '  e_table := [' + '; '.join(f'({ord(k)}, {ord(v)})' for k, v in esc['table']) + '];',
-         '  e_excl := ' + coq_chars(esc['excl']) + ' |}.', '',
+         '  e_excl := ' + coq_chars(esc['excl']) + ' |}.',
+         '(* Tokenizer options in effect in Keyvalues.parse: string_bracket, string_parens, allow_star_comments, '
+         'preserve_comments, colon_operator, plus_operator (allow_escapes is the caller\'s) *)',
+         'Definition gen_parse_topts : list bool := [' + '; '.join('true' if x else 'false' for x in psites['tokenizer_options']) + '].',
+         '(* characters that escape_text escapes but that a fast path "nothing to escape: return text" does not look for *)',
+         'Definition gen_esc_fastpath_missing : list N := [' + '; '.join(str(x) for x in esc['fast_path_missing']) + '].', '',
          'Definition gen_sercfg : sercfg := {|',
          f'  t_root_test := {inner["root_test"]};',
          f'  t_open_ind := {coq_pieces(braces["open_ind"])};',
@@ -745,11 +1161,13 @@ def translate() -> tuple[str, dict]:
                               for k, v in xs.items()},
             'export_yields': [[ln, [list(p) for p in ps]] for ln, ps in yields],
             'escapes': esc['table'], 'escape_re_excluded': esc['excl'],
-            'escape_multiline_re_excluded': esc.get('excl_multi'),
+            'escape_multiline_re_excluded': esc.get('excl_multi'), 'escaped_code_points': esc['escaped'],
+            'escape_fast_paths': esc['fast_paths'], 'escape_fast_path_missing': esc['fast_path_missing'],
             'tree_stores': stores, 'tree_mut_calls': muts, 'other_stores': info,
             'lines': {'serialise': f_ser.lineno, '_serialise': f_in.lineno, 'export': f_exp.lineno},
             'digests': {'parse': ast_digest(f_parse), 'Tokenizer': esc['tokenizer_digest'],
                         '_serialise': ast_digest(f_in), 'serialise': ast_digest(f_ser)}}
+    side['read_flag_shape_recognised'] = read_flag_known
     return '\n'.join(L), side
 
 
